@@ -204,6 +204,19 @@ impl<'a> BitVecOps for BitVecValueRef<'a> {
     proof fn lemma_canonical(&self) { admit(); }
 }
 
+/// a full-width slice of a literal is the literal (proved from the two slice axioms; needed where a value is re-normalised by
+/// `x.slice(x.width() - 1, 0)`)
+pub broadcast proof fn lemma_slice_full_lit(w: int, v: int, hi: int, lo: int)
+    requires w >= 1, hi == w - 1, lo == 0,
+    ensures d_lit(hi - lo + 1, #[trigger] v_slice(w, v, hi, lo)) == d_lit(w, v),
+{
+    broadcast use group_bv_algebra;
+    let x = d_lit(w, v);
+    assert(d_w(x) == w);
+    assert(d_slice(x, hi, lo) == x);
+    assert(d_slice(d_lit(w, v), hi, lo) == d_lit(hi - lo + 1, v_slice(w, v, hi, lo)));
+}
+
 /// the canonical-representation facts, available to every proof without a call
 pub broadcast proof fn ax_bvv_canonical(x: BitVecValue)
     ensures #[trigger] x.w() >= 1, x.w() <= u32::MAX, v_fits(x.w(), x.v()),
